@@ -133,6 +133,20 @@ CLAIMED = {
              "object kind; settings varied: clean_qq, qq_depth (Tract); sec_colon_cautious, parse_qq, clean_qq, default_ns "
              "(PLSSDesc).",
         design_ref="§5.8, §6 C14"),
+    "C15": dict(
+        technique="TLA+ model of the process-global state (MasterConfig, TRS cache with ghost soundness marks, caller "
+                  "mutations) checked by TLC incl. two injected design faults; behaviours replayed in worker processes; "
+                  "trace validation: every probe outcome is a function of Pure(probe, MasterConfig), fresh-interpreter "
+                  "references included",
+        text="TLC checks CacheSound / ProbeIsPure / RestoreRestores over all histories up to the bound and that the faults "
+             "'public conversion returns the cached dict' and 'default frozen at import' are caught; a sample of all bounded "
+             "histories plus random longer ones (set/restore MasterConfig, clear/disable/pre-warm the cache, parse other "
+             "descriptions, mutate dicts/lists returned by 6 conversion paths) is executed, each probe's complete outcome "
+             "hashed; the trace spec replays MasterConfig through the events and requires one outcome per Pure(probe, "
+             "MasterConfig) across all histories and the 32 fresh-interpreter reference runs.",
+        note="Trusted: probe projections; reset of global state between histories in the workers. Tract.__UID is not "
+             "observable through the probes (creation order only matters for 'i' sorting, C17).",
+        design_ref="§5.9, §6 C15"),
 }
 
 NOT_APPLICABLE = {
